@@ -29,7 +29,7 @@ for dp, dn, fn in os.walk(vm):
                 open(p, "w").write(s2)
         if f == "Cargo.lock":
             os.remove(os.path.join(dp, f))
-env = dict(os.environ, VERIF_REPO=wt)
+env = dict(os.environ, VERIF_REPO=wt, VERIF_ISOLATE="1")
 r = subprocess.run(["python3", "run_check.py", prop, tier], cwd=vm, env=env, stdout=subprocess.PIPE, stderr=subprocess.STDOUT, text=True)
 out = r.stdout
 res = os.path.join(ROOT, "seeded", sid, "result_%s_%s.txt" % (prop, tier))
